@@ -1918,11 +1918,18 @@ class t2data(object):
         """
         allowed = ['HEAT', 'WATE', 'AIR ', 'MASS', 'DELV']
         convert = {'CO2 ':'COM2'}
-        delgens = []
+        delgens, keepgens = [], []
         for gen in self.generatorlist:
             if gen.type in convert: gen.type = convert[gen.type]
             elif not ((gen.type in allowed) or gen.type.startswith('COM')):
                 delgens.append((gen.block, gen.name))
+                continue
+            keepgens.append(gen)
+        self.generatorlist[:] = keepgens
+        self.generator = dict([((gen.block, gen.name), gen) for gen in keepgens])
+        if 'generator' in self.short_output:
+            self.short_output['generator'] = [gen for gen in self.short_output['generator']
+                                              if gen in keepgens]
         if warn and len(delgens) > 0:
             print('The following generators have types not supported' + \
                   ' by TOUGH2 and have been deleted:')
